@@ -223,9 +223,6 @@ theorem digest2_eq (c : Ctx) (p : List UInt8) (cs : List Nat) (h : LInv c p cs) 
       cases nz with
       | false =>
         simp only [Bool.false_eq_true, if_false, hlen]
-        by_cases hgt : sz > 32
-        · rw [if_pos hgt, if_pos (by simpa using hgt)]
-        · rw [if_neg hgt, if_neg (by simpa using hgt)]
       | true =>
         simp only [if_true]
         by_cases hgt : sz > 32
